@@ -50,6 +50,11 @@ pub struct PoolCase {
     pub amount: Uint128,
     /// second operation after re-enabling everything
     pub path2: PoolPath,
+    /// other fields carried by the very message that sets the switches: bit 0 pool fees (unchanged
+    /// values), bit 1 an amplification ramp (three-asset pool; a valid one), bit 2 the fee collector
+    /// address (pairs; unchanged value)
+    #[serde(default)]
+    pub companions: u8,
 }
 
 enum AnyPool {
@@ -90,19 +95,33 @@ impl AnyPool {
         }
     }
     fn set_flags(&mut self, f: [bool; 3]) -> Result<(), String> {
+        self.set_flags_with(f, 0)
+    }
+    /// sets the switches in one message that also carries the `companions` fields
+    fn set_flags_with(&mut self, f: [bool; 3], companions: u8) -> Result<(), String> {
+        let fees = [1_000_000_000_000_000u128, 3_000_000_000_000_000, 1_000_000_000_000_000];
         match self {
-            AnyPool::Pair(p) => p.set_toggles(f[0], f[1], f[2]).map(|_| ()),
-            AnyPool::Trio(t) => t
-                .update(
-                    None,
+            AnyPool::Pair(p) => p
+                .update_cfg(if companions & 1 != 0 { Some(fees) } else { None }, Some(f), companions & 4 != 0)
+                .map(|_| ()),
+            AnyPool::Trio(t) => {
+                let ramp = if companions & 2 != 0 {
+                    let h = t.w.app.block_info().height;
+                    Some(trio::RampAmp { future_a: 200, future_block: h + 10_000 })
+                } else {
+                    None
+                };
+                t.update(
+                    if companions & 1 != 0 { Some(fees) } else { None },
                     Some(trio::FeatureToggle {
                         withdrawals_enabled: f[0],
                         deposits_enabled: f[1],
                         swaps_enabled: f[2],
                     }),
-                    None,
+                    ramp,
                 )
-                .map(|_| ()),
+                .map(|_| ())
+            }
         }
     }
     fn flags(&self) -> Result<[bool; 3], String> {
@@ -237,7 +256,7 @@ impl Check for PoolToggles {
         "pool_pause_switches"
     }
     fn rule(&self) -> &'static str {
-        "constant-product pair, stableswap pair and trio (asset kinds native/cw20) x all 8 combinations of (withdrawals, deposits, swaps) set through the factory x entry paths {ProvideLiquidity, swap offering asset 0 / asset 1 (native Swap message or cw20 Send hook according to the asset kind), cw20 Send{WithdrawLiquidity} of the LP token, swap through the pool router (pairs) / third direction (trio)} x {empty, funded}; the full product with fixed amounts is the regression corpus and random amounts / asset kinds are drawn on top. Differential oracle against a twin world built identically with every switch on: an operation whose switch is off must be rejected with the world snapshot unchanged; every other operation must have the same outcome and the same balance / LP-supply deltas as in the twin; after re-enabling everything a second operation must again equal the twin; a fresh pool reports all switches on. Non-trivial: at least one switch off."
+        "constant-product pair, stableswap pair and trio (asset kinds native/cw20) x all 8 combinations of (withdrawals, deposits, swaps) set through the factory — alone or in one message together with pool fees / an amplification ramp / the collector address — x entry paths {ProvideLiquidity, swap offering asset 0 / asset 1 (native Swap message or cw20 Send hook according to the asset kind), cw20 Send{WithdrawLiquidity} of the LP token, swap through the pool router (pairs) / third direction (trio)} x {empty, funded}; the full product with fixed amounts is the regression corpus and random amounts / asset kinds are drawn on top. Differential oracle against a twin world built identically with every switch on: an operation whose switch is off must be rejected with the world snapshot unchanged; every other operation must have the same outcome and the same balance / LP-supply deltas as in the twin; after re-enabling everything a second operation must again equal the twin; a fresh pool reports all switches on. Non-trivial: at least one switch off."
     }
     fn strategy(&self, _tier: Tier) -> BoxedStrategy<PoolCase> {
         (
@@ -248,8 +267,9 @@ impl Check for PoolToggles {
             0usize..5,
             gen::log_uniform(1, 1u128 << 40),
             0usize..5,
+            prop_oneof![2 => Just(0u8), 3 => 0u8..8],
         )
-            .prop_map(|(kind, cw20, flags, funded, p, amount, p2)| PoolCase {
+            .prop_map(|(kind, cw20, flags, funded, p, amount, p2, companions)| PoolCase {
                 kind,
                 cw20,
                 flags,
@@ -257,6 +277,7 @@ impl Check for PoolToggles {
                 path: POOL_PATHS[p],
                 amount: Uint128::new(amount),
                 path2: POOL_PATHS[p2],
+                companions,
             })
             .boxed()
     }
@@ -277,7 +298,20 @@ impl Check for PoolToggles {
                             path: *path,
                             amount: Uint128::new(1_000_000),
                             path2: POOL_PATHS[(i + 1) % 5],
+                            companions: 0,
                         });
+                        if funded {
+                            out.push(PoolCase {
+                                kind,
+                                cw20: [i % 2 == 0, f % 2 == 0, false],
+                                flags: [f & 1 != 0, f & 2 != 0, f & 4 != 0],
+                                funded,
+                                path: *path,
+                                amount: Uint128::new(1_000_000),
+                                path2: POOL_PATHS[(i + 1) % 5],
+                                companions: 7,
+                            });
+                        }
                     }
                 }
             }
@@ -296,8 +330,20 @@ impl Check for PoolToggles {
             a.fund().map_err(|e| Fail::new(format!("funding failed: {e}")))?;
             b.fund().map_err(|e| Fail::new(format!("funding failed: {e}")))?;
         }
-        a.set_flags(c.flags).map_err(|e| Fail::new(format!("setting the switches through the factory failed: {e}")))?;
-        ensure!(a.flags().map_err(Fail::new)? == c.flags, "switches {:?} were not stored: {:?}", c.flags, a.flags());
+        a.set_flags_with(c.flags, c.companions)
+            .map_err(|e| Fail::new(format!("setting the switches through the factory (companion fields {:#05b}) failed: {e}", c.companions)))?;
+        // the twin gets the same companion fields, with every switch on
+        b.set_flags_with([true, true, true], c.companions).map_err(|e| Fail::new(format!("twin update failed: {e}")))?;
+        if c.companions != 0 {
+            rec.class("switches_set_together_with_other_fields");
+        }
+        ensure!(
+            a.flags().map_err(Fail::new)? == c.flags,
+            "switches {:?} were not stored by a message that also carried other fields (bits {:#05b}: 1 fees, 2 amp ramp, 4 collector): {:?}",
+            c.flags,
+            c.companions,
+            a.flags()
+        );
         if c.flags != [true, true, true] {
             rec.nontrivial(hash_of(c));
             rec.sample(c);
